@@ -281,3 +281,43 @@ theorem stepFold_mem (key : E → Option α) (i : Nat) (st : E × E) (l : List E
 
 end V2
 end M3d.SolidAlg
+
+namespace M3d.SolidAlg
+section Desc
+variable {K : Type} [LinearOrder K]
+
+/-- On a list that is already sorted downwards, the two largest entries are the first two. -/
+theorem top2Spec_of_desc (l : List K) (h : l.Pairwise (fun a b => b ≤ a)) : top2Spec l = (l[0]?, l[1]?) := by
+  rw [← foldl_ins1_eq_top2Spec]
+  match l, h with
+  | [], _ => rfl
+  | [a], _ =>
+    show ins1 (κ := WithBot K) (⊥, ⊥) (a : WithBot K) = _
+    simp [ins1]; rfl
+  | a :: b :: rest, h =>
+    have hab : b ≤ a := List.rel_of_pairwise_cons h (List.mem_cons_self)
+    have hrest : ∀ d ∈ rest, d ≤ b := fun d hd =>
+      List.rel_of_pairwise_cons (List.pairwise_cons.mp h).2 hd
+    exact foldl_ins1_sorted (κ := WithBot K) (a : WithBot K) (b : WithBot K) (rest.map some)
+      WithBot.coe_ne_bot (WithBot.coe_le_coe.mpr hab)
+      (by
+        intro d hd
+        obtain ⟨x, hx, rfl⟩ := List.mem_map.mp hd
+        exact WithBot.coe_le_coe.mpr (hrest x hx))
+
+/-- The distances in the two slots of `SmoothJoinV2` are the top two distances. -/
+theorem stepFold_keys {V : Type} (z : V) (es : List (K × V)) :
+    Prod.map Prod.fst Prod.fst (stepFold (E := Option K × V) Prod.fst 0 ((none, z), (none, z))
+      (es.map fun e => (some e.1, e.2)))
+    = top2Spec (es.map (·.1)) := by
+  rw [stepFold_key]
+  simp only [Prod.map, List.map_map, Function.comp_def]
+  have := stepFold_id_eq (es.map (·.1))
+  simp only [List.map_map, Function.comp_def] at this
+  rw [this]
+  have := foldl_ins1_eq_top2Spec (es.map (·.1))
+  simp only [List.map_map, Function.comp_def] at this
+  exact this
+
+end Desc
+end M3d.SolidAlg
